@@ -30,6 +30,7 @@ def main():
     rc, st = sh("git -C /repo status --porcelain")
     if st.strip():
         raise SystemExit("/repo is not clean:\n" + st)
+    sh("./check.sh C03 quick", cwd=VERIF)  # rebuilds bin/yvcheck if its sources changed
     save = tempfile.mkdtemp(prefix="evsave")
     shutil.copytree(VERIF + "/evidence", save + "/evidence")
     results = {}
@@ -51,10 +52,11 @@ def main():
                 prop = sid[:3]
                 props = claimed() if allprops else [prop]
                 fired = {}
-                for p in props:
-                    if p not in claimed():
-                        continue
-                    rc, out = sh("./check.sh %s quick" % p, cwd=VERIF)
+                props = [p for p in props if p in claimed()]
+                from concurrent.futures import ThreadPoolExecutor
+                with ThreadPoolExecutor(max_workers=10) as ex:
+                    outs = list(ex.map(lambda p: sh("bin/yvcheck -prop %s -tier quick" % p, cwd=VERIF), props))
+                for p, (rc, out) in zip(props, outs):
                     rules = sorted(set(re.findall(r"open: \[(R[\d.]+[a-z]?)\]", out)))
                     if rc == 1 and "VIOLATION property=" in out:
                         fired[p] = rules
@@ -71,7 +73,20 @@ def main():
         shutil.rmtree(VERIF + "/evidence")
         shutil.copytree(save + "/evidence", VERIF + "/evidence")
         shutil.rmtree(save)
-    json.dump(results, open(VERIF + "/seeded/RESULTS.json", "w"), indent=1, sort_keys=True)
+    merged = {}
+    try:
+        merged = json.load(open(VERIF + "/seeded/RESULTS.json"))
+    except Exception:
+        pass
+    for k, v in results.items():
+        if not allprops and k in merged and merged[k].get("applied") and v.get("applied"):
+            # a single-property run refreshes that property's entry only
+            f = dict(merged[k].get("fired", {}))
+            f.pop(k[:3], None)
+            f.update(v.get("fired", {}))
+            v = {"applied": True, "fired": f}
+        merged[k] = v
+    json.dump(merged, open(VERIF + "/seeded/RESULTS.json", "w"), indent=1, sort_keys=True)
 
 
 if __name__ == "__main__":
